@@ -42,6 +42,8 @@ pub struct HistCfg {
   pub wall_cap: f64,
   /// C16: record (program hash, history hash, step digest) of every transition
   pub collect_digests: bool,
+  /// C16: look for the history with this hash (to write a replayable artefact for a cross-process mismatch)
+  pub find_path_hash: Option<u64>,
 }
 
 /// Fixed-key hash (no addresses, no random seeds): used for trace digests only.
@@ -106,6 +108,7 @@ pub struct Stats {
   pub digests: Vec<(u64, u64, u64)>,
   /// a few explored histories written out (the deepest ones met by each worker)
   pub samples: Vec<Value>,
+  pub found_path: Option<Vec<PEvent>>,
 }
 
 impl Stats {
@@ -121,6 +124,7 @@ impl Stats {
     self.wall_capped |= o.wall_capped;
     self.digests.extend_from_slice(&o.digests);
     for s in &o.samples { if self.samples.len() < 12 { self.samples.push(s.clone()); } }
+    if self.found_path.is_none() { self.found_path = o.found_path.clone(); }
   }
 }
 
@@ -227,7 +231,33 @@ pub struct Judged {
 }
 
 /// Re-executes `path` on a fresh Pie, analyses it, judges the last step, optionally probes.
+thread_local! {
+  static PRELUDE_COUNTER: std::cell::Cell<usize> = std::cell::Cell::new(0);
+}
+
+/// C16: "independent of ... earlier unrelated instances". Before a history is (re-)executed, an unrelated Pie instance
+/// on the same thread runs one of a few fixed histories that end in an abort or exercise re-ordering (rotating per
+/// execution), so that state leaking between instances (thread-locals, statics) shows up as a replay divergence.
+fn unrelated_prelude() {
+  let k = PRELUDE_COUNTER.with(|c| { let v = c.get(); c.set(v + 1); v }) % 5;
+  let st = |op| Stmt { guard: None, op };
+  let q = OC::Equals;
+  let (p, path): (Prog, Vec<PEvent>) = match k {
+    0 => return,
+    1 => (Prog { n_res: 0, bodies: vec![vec![st(Op::Req(1, q))], vec![st(Op::Req(2, q))], vec![st(Op::Req(0, q))]] },
+          vec![PEvent::plain(Event::TopDown(vec![0]))]),
+    2 => (Prog { n_res: 0, bodies: vec![vec![st(Op::Req(1, q))], vec![st(Op::Req(2, q))], vec![st(Op::Req(3, q))], vec![st(Op::Req(0, q))]] },
+          vec![PEvent::plain(Event::TopDown(vec![2])), PEvent::plain(Event::TopDown(vec![0]))]),
+    3 => (Prog { n_res: 1, bodies: vec![vec![st(Op::Read(0, RC::Exact))], vec![st(Op::Write(0, Src::One, RC::Exact))], vec![st(Op::Write(0, Src::Zero, RC::Exact))]] },
+          vec![PEvent::plain(Event::TopDown(vec![1, 0])), PEvent::plain(Event::TopDown(vec![2]))]),
+    _ => (Prog { n_res: 1, bodies: vec![vec![st(Op::Read(0, RC::Exact)), Stmt { guard: Some(1), op: Op::Req(2, q) }], vec![st(Op::Req(0, q))], vec![st(Op::Req(1, q)), st(Op::Read(0, RC::Exact))]] },
+          vec![PEvent::plain(Event::TopDown(vec![2, 1])), PEvent::plain(Event::Set(0, Some(1))), PEvent::plain(Event::BottomUp { pre: vec![], reported: vec![0], then: vec![2] })]),
+  };
+  let _ = run_history(&p, &path);
+}
+
 pub fn judge_path(prog: &Prog, class: Class, cfg: &HistCfg, path: &[PEvent], crashes_used: usize) -> Judged {
+  if cfg.prop == Prop::C16 { unrelated_prelude(); }
   set_program(Some(prog.clone()));
   let mut live = Live::new();
   let mut an = Analyzer::new(prog, class, cfg.prop);
@@ -354,6 +384,7 @@ pub fn explore_program(prog: &Prog, class: Class, cfg: &HistCfg, stats: &mut Sta
         let mut ph = Fnv::default(); prog.hash(&mut ph);
         let mut hh = Fnv::default(); path.hash(&mut hh);
         stats.digests.push((ph.finish(), hh.finish(), last_digest));
+        if cfg.find_path_hash == Some(hh.finish()) { stats.found_path = Some(path.clone()); }
       }
       match &last.outcome {
         Outcome::Returned(_) => {
